@@ -237,7 +237,8 @@ def socks_worker(blobs):
             fwd.connection_made(t)
             viol = []
             try:
-                chunks = [blob] if not split else [blob[i:i + 1] for i in range(len(blob))]
+                step = len(blob) if not split else int(split)       # True (older replay files) means 1
+                chunks = [blob[i:i + step] for i in range(0, len(blob), max(step, 1))]
                 for c in chunks:
                     if t.closing or t.lost:
                         break
@@ -250,6 +251,10 @@ def socks_worker(blobs):
                 viol.append(('loop-exception', repr(exc[0].get('exception') or exc[0].get('message'))[:200]))
             if loop.budget_tripped:
                 viol.append(('work-budget', loop.budget_tripped))
+            # what a client may make the forwarder hold is bounded: no field of a request is longer than 255 bytes
+            held = len(getattr(fwd, '_inpbuf', b''))
+            if not (t.closing or t.lost) and not opened and held > 255 + max([len(c) for c in chunks] or [0]) + 8:
+                viol.append(('unbounded-buffer', '%d bytes of an unfinished request held, connection still open' % held))
             acc.add(core.digest((blob, split, t.closing, tuple(opened))), transitions=len(blob),
                     sample={'socks_bytes': blob.hex(), 'relay_to': opened} if opened and len(acc.samples) < 1 else None)
             for k, d in viol:
@@ -270,6 +275,11 @@ def socks_blobs(tier):
              bytes([5, 2, 0, 2]) + bytes([5, 1, 0, 3, 4]) + b'host' + bytes([0, 80]),
              bytes([5, 1, 0]) + bytes([5, 1, 0, 4]) + bytes(16) + bytes([0, 80]),
              bytes([4, 1, 0, 80, 10, 0, 0, 1]) + b'u' * 300, bytes([5, 0]), bytes([5, 255]) + bytes(255)]
+    # fields that never end, arriving in pieces none of which is long by itself
+    for head in (bytes([4, 1, 0, 80, 10, 0, 0, 1]), bytes([4, 1, 0, 80, 0, 0, 0, 1]) + b'\0', bytes([4, 1, 0, 80, 0, 0, 0, 1]) + b'u\0'):
+        for n in (256, 300, 1200):
+            for step in (1, 7, 100, 255, 256):
+                out.append((head + b'h' * n, step))
     for v in valid:
         out.append((v, False))
         out.append((v, True))
